@@ -1008,6 +1008,12 @@ func expandLocals(e ast.Expr, g *gpath, i int, fr *core.Frame, depth int) ast.Ex
 				if be, isBin := unparen(d.expr).(*ast.BinaryExpr); isBin && (be.Op == token.ADD || be.Op == token.SUB) {
 					return &ast.ParenExpr{X: expandLocals(d.expr, g, i, d.fr, depth+1)}
 				}
+				// … and names of a length (dataLen := len(data))
+				if call, isCall := unparen(d.expr).(*ast.CallExpr); isCall {
+					if id, ok := unparen(call.Fun).(*ast.Ident); ok && id.Name == "len" {
+						return &ast.ParenExpr{X: d.expr}
+					}
+				}
 			}
 		}
 	case *ast.ParenExpr:
